@@ -104,6 +104,7 @@ type abConn struct {
 	s          [2]*abSide // 0 = client (node A), 1 = server side (node B), nil until accepted
 	connected  bool
 	connErr    *tcpip.Error
+	unclean    bool // an application closed a side while data was still owed in either direction: errors may be legitimate
 	started    bool
 	iss        [2]uint32
 	haveISS    [2]bool
@@ -526,6 +527,11 @@ func (w *ABWorld) read(ci, si int) bool {
 	v, _, err := s.ep.Read(nil)
 	if err != nil {
 		if err == tcpip.ErrClosedForReceive {
+			if ws := c.s[1-si]; !s.eof && ws != nil && (ws.shutW || ws.closed) && s.read < ws.accepted {
+				// "truncated": end-of-stream is the peer's FIN taken in sequence, so everything the writer's
+				// writes had accepted before it shut down has to have been returned by now
+				w.Fail("eof-before-data", "", "connection %d: reader side %d saw end-of-stream after %d bytes but the writer's writes had accepted %d before it shut down", ci, si, s.read, ws.accepted)
+			}
 			s.eof = true
 		} else if isHard(err) {
 			s.hardErr = err
@@ -602,6 +608,11 @@ func (w *ABWorld) closeSide(ci, si int) {
 	if err := s.ep.GetSockOpt(&q); err == nil && q > 0 {
 		s.unreadAtClose = true
 	}
+	if c := w.conns[ci]; !(s.eof && !s.unreadAtClose && c.s[1-si] != nil && c.s[1-si].read == s.accepted) {
+		// only a Close by a side that has read the peer's end-of-stream and whose own bytes the peer's
+		// application has all read leaves nothing but the closing handshake to do
+		c.unclean = true
+	}
 	s.ep.Close()
 	s.closed = true
 	s.shutW = true
@@ -648,6 +659,12 @@ func (w *ABWorld) Next(step int) Step {
 			if async {
 				return Step{Op: "awrite", A: ci, B: si, C: r.Range(1, sizes[r.Intn(len(sizes))])}
 			}
+			switch r.Pick(30, 1, 1) {
+			case 1:
+				return Step{Op: "write0", A: ci, B: si} // a Write of no bytes: nothing happens to the stream
+			case 2:
+				return Step{Op: "rcvgrow", A: ci, B: si, C: r.Intn(3)} // the application enlarges its receive buffer
+			}
 			return Step{Op: "write", A: ci, B: si, C: r.Range(1, sizes[r.Intn(len(sizes))])}
 		case 1:
 			if w.Cfg.Stalls && step < s.stallTil {
@@ -693,7 +710,7 @@ func (w *ABWorld) Next(step int) Step {
 
 // Apply executes one recorded step.
 func (w *ABWorld) Apply(s Step) {
-	if w.pendingAsync > 0 && (s.Op == "write" || s.Op == "read" || s.Op == "shutw" || s.Op == "close" || s.Op == "connect" || s.Op == "accept") {
+	if w.pendingAsync > 0 && (s.Op == "write" || s.Op == "write0" || s.Op == "rcvgrow" || s.Op == "read" || s.Op == "shutw" || s.Op == "close" || s.Op == "connect" || s.Op == "accept") {
 		// an application's own operations are sequential: let the posted ones
 		// finish before the simulator goroutine acts for the applications itself
 		w.Settle()
@@ -730,6 +747,21 @@ func (w *ABWorld) Apply(s Step) {
 		w.write(s.A, s.B, s.C)
 	case "read":
 		w.read(s.A, s.B)
+	case "write0":
+		if c, sd := w.side(s.A, s.B); sd != nil && !sd.closed && !sd.shutW && sd.hardErr == nil && (s.B == 1 || c.connected) {
+			sd.ep.Write(tcpip.SlicePayload(nil), tcpip.WriteOptions{})
+			w.Probes["writes_of_no_bytes"]++
+			w.settle()
+		}
+	case "rcvgrow":
+		if _, sd := w.side(s.A, s.B); sd != nil && !sd.closed {
+			var cur tcpip.ReceiveBufferSizeOption
+			if err := sd.ep.GetSockOpt(&cur); err == nil && int(cur) < 1<<20 {
+				sd.ep.SetSockOpt(tcpip.ReceiveBufferSizeOption(int(cur) * []int{2, 4, 16}[s.C%3]))
+				w.Probes["receive_buffers_enlarged"]++
+				w.settle()
+			}
+		}
 	case "shutw":
 		w.shutw(s.A, s.B)
 	case "close":
@@ -937,6 +969,21 @@ func (w *ABWorld) Final(bound time.Duration) {
 		for si := 0; si < 2; si++ {
 			if s := c.s[si]; s != nil && !s.closed {
 				for w.read(c.id, si) {
+				}
+			}
+		}
+	}
+	// "when no packet of the closing exchange is lost both endpoints end ... without error": in a run whose wire
+	// never misbehaved, on a connection that no application closed with data still owed, nobody is told of an error
+	if w.faultsFired() == 0 && !w.stormed {
+		w.Probes["runs_without_any_fault"]++
+		for _, c := range w.conns {
+			if c.unclean {
+				continue
+			}
+			for si := 0; si < 2; si++ {
+				if s := c.s[si]; s != nil && s.hardErr != nil {
+					w.Fail("error-without-loss", "", "connection %d side %d reports %q although no packet was lost, duplicated, delayed or refused in this run and no application closed its socket with data outstanding", c.id, si, s.hardErr.String())
 				}
 			}
 		}
